@@ -26,7 +26,39 @@ def gen_tables(ctx):
            "Definition gen_is_hex := lookup gen_hex_table.\n"
            "Definition gen_is_flt := lookup gen_flt_table.\n")
     write_if_changed(GEN / "Gen_ScanTables.v", txt)
+    gen_scan_types(ctx)
     return rows
+
+
+def gen_scan_types(ctx):
+    """the scan-type enum (pkg/scan/type.go TypeNames), the two inferrer dispatch tables and the flag -> inferrer selection
+    (pkg/mlrval/mlrval_infer.go), read out of the built packages by 'implrun scan-tables'"""
+    rc, out, err = sh([ctx.implrun(), "scan-tables"])
+    if rc != 0:
+        raise RuntimeError("scan-tables failed: " + err[-500:])
+    types, normal, octal, select, examples = [], [], [], [], []
+    for l in out.splitlines():
+        p = l.split(" ", 2)
+        if p[0] == "type":
+            types.append((int(p[1]), p[2]))
+        elif p[0] == "normal":
+            normal.append(p[2])
+        elif p[0] == "octal":
+            octal.append(p[2])
+        elif p[0] == "select":
+            select.append((p[1], p[2]))
+        elif p[0] == "example":
+            examples.append((p[1], int(p[2])))
+    q = lambda x: '"%s"' % x
+    txt = ("(* REGENERATED on every run from pkg/scan/type.go (TypeNames) and pkg/mlrval/mlrval_infer.go (normalInferrerTable, "
+           "leadingZeroAsIntInferrerTable, the SetInferrer setters) via 'implrun scan-tables'. *)\n"
+           "Require Import String List.\nImport ListNotations.\nOpen Scope string_scope.\n"
+           "Definition gen_type_names : list (nat * string) := [%s].\n" % "; ".join("(%d, %s)" % (i, q(n)) for i, n in types) +
+           "Definition gen_normal_table : list string := [%s].\n" % "; ".join(q(n) for n in normal) +
+           "Definition gen_octal_table : list string := [%s].\n" % "; ".join(q(n) for n in octal) +
+           "Definition gen_selectors : list (string * string) := [%s].\n" % "; ".join("(%s, %s)" % (q(k), q(v)) for k, v in select) +
+           "Definition gen_examples : list (string * nat) := [%s].\n" % "; ".join("(%s, %d)" % (q(k), v) for k, v in examples))
+    write_if_changed(GEN / "Gen_ScanTypes.v", txt)
 
 
 # ---- documented grammar, Python rendering: used ONLY to search for / confirm a failing input
